@@ -147,6 +147,56 @@ def apply(name):
                     self.write(escape.DISABLE_BRACKETED_PASTE_MODE)
 
             pr.Screen._stop = _stop
+    elif name == "started-after-start-hook":
+        # the screen counts as started only once its start hook is through: a hook that announces the input
+        # descriptors (raw_display) announces none
+        from urwid.display import common
+        from urwid.util import StoppingContext
+
+        def start(self, *args, **kwargs):
+            if not self._started:
+                self._start(*args, **kwargs)
+                self._started = True
+            return StoppingContext(self)
+
+        common.BaseScreen.start = start
+    elif name == "no-rehook-after-descriptors-changed":
+        # INPUT_DESCRIPTORS_CHANGED only takes the old watches away
+        ml.MainLoop._reset_input_descriptors = lambda self: self.screen.unhook_event_loop(self.event_loop)
+        orig_start = ml.MainLoop.start
+
+        def start(self):
+            rv = orig_start(self)
+            self.screen.hook_event_loop(self.event_loop, self._update)
+            return rv
+
+        ml.MainLoop.start = start
+    elif name == "tty-not-watched-after-restart":
+        # once it has been started a second time the screen reports its resize pipe only
+        from urwid.display import _posix_raw_display as pr
+        from urwid.display import _raw_display_base as rb
+
+        orig = rb.Screen.get_input_descriptors
+        orig_start = pr.Screen._start
+
+        def _start(self, *a, **kw):
+            self._c12_mut_starts = self.__dict__.get("_c12_mut_starts", 0) + 1
+            return orig_start(self, *a, **kw)
+
+        def get_input_descriptors(self):
+            fds = orig(self)
+            return fds if self.__dict__.get("_c12_mut_starts", 0) < 2 else fds[:1]
+
+        pr.Screen._start = _start
+        rb.Screen.get_input_descriptors = get_input_descriptors
+    elif name == "sigcont-does-not-restart":
+        from urwid.display import _posix_raw_display as pr
+
+        def _sigcont_handler(self, signum, frame=None):
+            self.signal_restore()
+            self._sigwinch_handler(28, None)
+
+        pr.Screen._sigcont_handler = _sigcont_handler
     else:
         raise ValueError(name)
 
@@ -169,15 +219,23 @@ EXPECT = {
     "stale-partial-timer": "C12/order",
     "paste-focus-off-after-last-flush": "C12/terminal-modes",
     "no-flush-on-stop": "C12/terminal-modes",
+    "started-after-start-hook": "C12/order",
+    "no-rehook-after-descriptors-changed": "C12/order",
+    "tty-not-watched-after-restart": "C12/order",
+    "sigcont-does-not-restart": "C12/order",  # (the tty stays in canonical mode: what is typed is not readable)
 }
 
 
 def main():
     import bounded.C12 as b
 
-    sess = b.make_session("KMTPXRLYW", cycles=2)
+    sess = b.make_session("KMTPXRLYWsKUKR", cycles=2)
     ok_all = True
+    import sys
+
     for name, check in EXPECT.items():
+        if sys.argv[1:] and name not in sys.argv[1:]:
+            continue
         red = {}
         for screen in ("fake_hook", "pty", "fake_nohook"):
             for loop in ("select", "asyncio"):
@@ -185,6 +243,8 @@ def main():
                     continue
                 for inj in (None, {"kind": "keypress", "idx": 2, "exc": "exc"}, {"kind": "alarm", "idx": 0, "exc": "exit"}):
                     ses = [st for st in sess if st[0] != "pipe"] if screen == "fake_nohook" else sess
+                    if screen != "pty":
+                        ses = b.for_fake(ses)
                     case = {"screen": screen, "loop": loop, "pop_ups": False, "session": ses, "inject": inj, "mutate": name}
                     if screen == "pty":
                         case["pty"] = b.PTY_CFGS[3]
